@@ -324,6 +324,31 @@ def run(ctx):
         observe('s%d_direct' % i, raw, ab, 'direct', lw)
         if i % (4 if ctx.quick else 2) == 0:
             observe('s%d_file' % i, raw, ab, 'file', lw)
+    # the HOST's local time zone is no input: the same records decoded on hosts whose zone has daylight saving, with time
+    # stamps around both switches (the repeated hour in autumn, the skipped one in spring) and far from them
+    import os
+    import time as _time
+    saved_tz = os.environ.get('TZ')
+    ntz = 0
+    try:
+        for tz in ('EST5EDT,M3.2.0,M11.1.0', 'CET-1CEST,M3.5.0,M10.5.0/3', 'NZST-12NZDT,M9.5.0,M4.1.0/3', 'UTC', 'JST-9'):
+            os.environ['TZ'] = tz
+            _time.tzset()
+            for base in (1636261200, 1635638400, 1647741600, 1616893200, 1648944000, 1600000000):      # Nov 2021 (US), Oct 2021 (EU), Mar 2022 / 2021, Apr 2022 (NZ)
+                for off in range(-7200, 7201, 1800 if ctx.quick else 600):
+                    lw = lws[ntz % len(lws)]
+                    raw, ab = lw.record((), dm_shape=0)
+                    raw['ud'] = {'sec': base + off, 'usec': rnd.choice([0, 1, 999999])}
+                    ab['ud'] = [raw['ud']['sec'], raw['ud']['usec']]
+                    observe('tz%d_direct' % ntz, raw, ab, 'direct', lw)
+                    ntz += 1
+    finally:
+        if saved_tz is None:
+            os.environ.pop('TZ', None)
+        else:
+            os.environ['TZ'] = saved_tz
+        _time.tzset()
+    ctx.extra['records_decoded_under_other_host_time_zones'] = ntz
     # every defined trace-identifier word
     nti = 0
     for ns, types in TYPES.items():
